@@ -377,4 +377,64 @@ Definition to_text (full : bool) (u : url) : mres text :=
        ++ (if nonempty qs then 63 :: qs else [])
        ++ (if nonempty fragment then 35 :: fragment else [])).
 
+(* ---- find_all_links: the handling of the matches of _FIND_ALL_URL_RE ------------------------------------
+   The regular expression itself is an oracle: [spans] are the (start, end) offsets of its successive matches
+   (match.start(1), match.end(1); group 0 = group 1).  Items of the result: (true, URL) | (false, text). *)
+Definition slice (t : text) (a b : nat) : text := firstn (b - a) (skipn a t).
+
+(* _add_text: glue onto a preceding text piece *)
+Definition add_text (ret : list (bool * url + text)) (s : text) : list (bool * url + text) :=
+  match rev ret with
+  | inr s0 :: r => rev r ++ [inr (s0 ++ s)]
+  | _ => ret ++ [inr s]
+  end.
+
+Definition fal_step (with_text : bool) (ds : option text) (schemes : list text) (t : text)
+  (st : nat * list (bool * url + text)) (span : nat * nat) : mres (nat * list (bool * url + text)) :=
+  let '(prev_end, ret) := st in
+  let '(start, end_) := span in
+  let ret := if Nat.ltb prev_end start && with_text then ret ++ [inr (slice t prev_end start)] else ret in
+  let cur := slice t start end_ in
+  (* except URLParseError: if with_text: _add_text(text[start:end]) *)
+  let on_error := MOk (end_, if with_text then add_text ret cur else ret) in
+  let finish (u : url) :=
+    if match schemes with [] => false | _ => negb (mem_text (u_scheme u) schemes) end
+    then MOk (end_, add_text ret cur)
+    else MOk (end_, ret ++ [inl (true, u)]) in
+  match url_init cur with
+  | MRaise URLParseError => on_error
+  | MOk u =>
+    match u_scheme u with
+    | [] =>
+      match ds with
+      | Some d =>
+        match url_init (d ++ [58; 47; 47] ++ cur) with
+        | MRaise URLParseError => on_error
+        | MOk u2 => finish u2
+        | MRaise e => MRaise e
+        | MOut w => MOut w
+        end
+      | None => MOk (end_, add_text ret cur)
+      end
+    | _ => finish u
+    end
+  | MRaise e => MRaise e
+  | MOut w => MOut w
+  end.
+
+Fixpoint fal_loop (with_text : bool) (ds : option text) (schemes : list text) (t : text)
+  (spans : list (nat * nat)) (st : nat * list (bool * url + text)) : mres (nat * list (bool * url + text)) :=
+  match spans with
+  | [] => MOk st
+  | sp :: r => do st' <- fal_step with_text ds schemes t st sp; fal_loop with_text ds schemes t r st'
+  end.
+
+Definition find_all_links (with_text : bool) (ds : option text) (schemes : list text) (t : text)
+  (spans : list (nat * nat)) : mres (list (bool * url + text)) :=
+  do st <- fal_loop with_text ds schemes t spans (0%nat, []);
+  let '(prev_end, ret) := st in
+  MOk (if with_text
+       then match skipn prev_end t with [] => ret | tail => add_text ret tail end
+       else ret).
+
 End Model.
